@@ -145,7 +145,7 @@ PROPS = {
         "level": "exploration", "eval_keys": ["part3_calls", "part2_calls", "common_set_vectors"],
         "rule": "exhaustive small scope: every assignment of {run A, run B, absent} to each round-one slot and of {(run, addressee)} or absent to each round-two slot of every receiver (n=3 quick; n in {3,4} thorough; all t), each part2/part3 outcome compared with the executable acceptance model; plus all 2^n common-set vectors with a signing run; distinct = distinct round-one fillings per (n,t,receiver) and accepted histories",
         "exhaustive": True,
-        "minimum": _min_counts(part3_calls=(10000, 600000), common_set_vectors=(150, 500), accepted_histories=(200, 800)),
+        "minimum": _min_counts(part3_calls=(10000, 600000), common_set_vectors=(150, 400), accepted_histories=(200, 800)),
         "assumptions": COMMON_ASSUME + ["scope bound: n <= 4, two concurrent runs with equal (n,t)"],
     },
     "C10": {
